@@ -7,7 +7,7 @@
    PARTIAL: the constructors of stochastic objects and molecules are not modelled; their rejection rules and
    termination are checked on the malformed stream (breaking operators, byte-level mutations, 2 s limit). *)
 From Coq Require Import List ZArith QArith Ascii String Bool.
-From GBS Require Import Model.PyStr Model.Num Model.Bond Model.Token Model.SysSplit Model.DistFam Src.SrcDist Proofs.TotalP Proofs.DistP Model.Stoch Proofs.StochP Model.Mol Proofs.MolP Model.SystemM Proofs.SystemP.
+From GBS Require Import Model.PyStr Model.Num Model.Bond Model.Token Model.SysSplit Model.DistFam Src.SrcDist Proofs.TotalP Proofs.DistP Model.Stoch Proofs.StochP Model.Mol Proofs.MolP Model.SystemM Proofs.SystemP Src.SrcStoch.
 Import ListNotations.
 Open Scope Z_scope.
 
@@ -82,6 +82,17 @@ Print Assumptions C15_molecule_parse_total.
 Theorem C15_system_parse_total : forall (valid_atom : str -> bool) (fprint : num -> str) raw smw, is_fuel (parse_system valid_atom fprint raw smw) = false.
 Proof. exact parse_system_total. Qed.
 Print Assumptions C15_system_parse_total.
+
+(* the same, stated with the length test TRANSLATED from the current source of Stochastic._validate (Src/SrcStoch.v, regenerated on every
+   run): no accepted object lets that test fire -- if the source's test changes, this no longer follows *)
+Theorem C15_accepted_objects_pass_the_source_validate : forall (valid_atom : str -> bool) text s, parse_stoch valid_atom text = OK s ->
+  SrcStoch.validate_bad (ps_bds s) (ps_left s) (ps_right s) = false.
+Proof.
+  intros v text s H. rewrite validate_is_source. destruct (parse_stoch_spec v text s H) as (_ & _ & _ & L & _).
+  destruct (existsb _ _) eqn:E; [|reflexivity]. apply existsb_exists in E as (d & Hin & Hd).
+  destruct (d_trans d) as [l|] eqn:Et; [|discriminate]. rewrite (L d l Hin Et), Nat.eqb_refl in Hd. discriminate.
+Qed.
+Print Assumptions C15_accepted_objects_pass_the_source_validate.
 
 Example C15_example :
   (exists m, parse_token (fun _ => true) (lit "C[$]C") 0 = Err ERuntime m) /\
